@@ -753,8 +753,37 @@ def _ind_value(sv, c, iid):
 
 def operand_meaning(x, sv, c):
     if "kind" in x:
-        return meaning(x, sv, c)
+        m = meaning(x, sv, c)
+        if x.get("optional"):
+            # the own meaning of an optional constraint is "applied implies relation"
+            if c.model is not None:
+                a = c.model.get(f"app:{x['id']}")
+            else:
+                a = getattr(c, "applied_guess", {}).get(x["id"])
+            if a is None:
+                return U
+            return k_or([b3(not a), m])
+        return m
     return expr3(x["expr"], sv, c)
+
+
+def optional_operand_ids(spec):
+    """ids of optional constraints used as operands of a connective"""
+    out = []
+
+    def walk(cs, nested):
+        if nested and cs.get("optional"):
+            out.append(cs["id"])
+        for key in ("arg", "a", "b"):
+            if isinstance(cs.get(key), dict) and "kind" in cs[key]:
+                walk(cs[key], True)
+        for key in ("args", "then", "else"):
+            for x in cs.get(key, []) or []:
+                if isinstance(x, dict) and "kind" in x:
+                    walk(x, True)
+    for cs in spec.get("constraints", []):
+        walk(cs, False)
+    return out
 
 
 TASK_CONSTRAINTS = {"TaskStartAt", "TaskStartAfter", "TaskEndAt", "TaskEndBefore", "TaskPrecedence", "TasksStartSynced",
